@@ -855,6 +855,30 @@ class Env:
                             self.ext.add(U(fn) if not self.roots(fn.value) else '<obj>.' + name)
                     elif isinstance(fn, ast.Name) and got and fn.id not in PURE_BUILTINS:
                         self.ext.add(fn.id)
+        # protocol calls on the object itself: self[...] / len(self) / iter(self) / `for x in self` / `x in self`
+        if self.cname and self.selfname == 'self':
+            proto = []
+            for n in ast.walk(f):
+                if isinstance(n, ast.Subscript) and isinstance(n.value, ast.Name) and n.value.id == 'self':
+                    proto.append('__getitem__' if isinstance(n.ctx, ast.Load) else ('__setitem__' if isinstance(n.ctx, ast.Store) else '__delitem__'))
+                if isinstance(n, ast.Call) and isinstance(n.func, ast.Name) and n.func.id in ('len', 'iter', 'list', 'tuple', 'sorted', 'next', 'str', 'repr', 'bool') \
+                        and len(n.args) >= 1 and isinstance(n.args[0], ast.Name) and n.args[0].id == 'self':
+                    proto += {'len': ['__len__'], 'iter': ['__iter__'], 'list': ['__iter__', '__len__'], 'tuple': ['__iter__', '__len__'],
+                              'sorted': ['__iter__'], 'next': ['__next__'], 'str': ['__str__'], 'repr': ['__repr__'], 'bool': ['__len__']}[n.func.id]
+                if isinstance(n, (ast.For, ast.comprehension)) and isinstance(n.iter, ast.Name) and n.iter.id == 'self':
+                    proto.append('__iter__')
+                if isinstance(n, ast.Compare) and any(isinstance(c_, ast.Name) and c_.id == 'self' for c_ in n.comparators) \
+                        and any(isinstance(o_, (ast.In, ast.NotIn)) for o_ in n.ops):
+                    proto += ['__contains__', '__getitem__']
+            for pm in sorted(set(proto)):
+                if db.lookup(self.cname, pm):
+                    fake = ast.Call(func=ast.Attribute(value=ast.Name(id='self', ctx=ast.Load()), attr=pm, ctx=ast.Load()), args=[], keywords=[])
+                    for (summ, bind) in self.callees(fake, None):
+                        for (root, how) in summ.writes:
+                            if root[0] != 'param':
+                                w(self.map_root(root, bind), how)
+                elif pm in ('__setitem__', '__delitem__'):
+                    raise Fail(f'{self.defcls}.{self.key[-1]}: item assignment on self without a {pm}')
         # a bound method of the object used as a value (passed to an adapter, stored): it may be called by the receiver
         if self.cname:
             callfuncs = {id(n.func) for n in ast.walk(f) if isinstance(n, ast.Call)}
@@ -1156,7 +1180,7 @@ def generate(srcdir):
             S = an.memo[('meth', c, defcls, name)]
             # direct = events whose syntactic origin is this body: recompute without callees
             direct = direct_tokens(an, c, defcls, name)
-            clos = sorted({token(r, h) for (r, h) in S.writes if r[0] != 'param'})
+            clos = sorted({token(r, h) for (r, h) in S.writes if r[0] != 'param'} | ({name + '@lru'} if kind == 'lru' else set()))
             args = sorted({token(r, h) for (r, h) in S.writes if r[0] == 'param'})
             ext_all |= S.ext
             public = not name.startswith('_') or (name.startswith('__') and name.endswith('__'))
